@@ -26,6 +26,7 @@
 import json
 import os
 import random
+import re
 import sys
 import time
 from pathlib import Path
@@ -287,6 +288,15 @@ class DL:
     def check(self, heap, w=None):
         """heap: {id: (next, prev)} as dumped by the implementation; w: the w= token (what the
         a_list_foreach_next / _prev macros visited from node c)"""
+        for closed, l in self.ch:
+            k = len(l)
+            for i in range(k if closed else k - 1):
+                x, y = l[i], l[(i + 1) % k]
+                if heap[x][0] != y:
+                    raise Bad("node %d: next is %s, the sequence %s says %d" % (x, heap[x][0], l, y))
+                if heap[y][1] != x:
+                    raise Bad("node %d: prev is %s, the sequence %s says %d (next/prev inconsistent)"
+                              % (y, heap[y][1], l, x))
         if w and w != "-":
             c, rest = w.split(":", 1)
             c = int(c)
@@ -301,15 +311,6 @@ class DL:
                 if bwd != ring[1:][::-1]:
                     raise BadFn("a_list_foreach_prev", "a_list_foreach_prev from node %d visited %s, the ring %s says %s"
                                 % (c, bwd, ring, ring[1:][::-1]))
-        for closed, l in self.ch:
-            k = len(l)
-            for i in range(k if closed else k - 1):
-                x, y = l[i], l[(i + 1) % k]
-                if heap[x][0] != y:
-                    raise Bad("node %d: next is %s, the sequence %s says %d" % (x, heap[x][0], l, y))
-                if heap[y][1] != x:
-                    raise Bad("node %d: prev is %s, the sequence %s says %d (next/prev inconsistent)"
-                              % (y, heap[y][1], l, x))
 
 
 def parse_l(line):
@@ -495,8 +496,6 @@ class SL:
         for l, xs in self.l.items():
             if xs is None:
                 continue
-            if ws is not None and ws[l - 1] != xs:
-                raise BadFn("a_slist_foreach", "a_slist_foreach on list %d visited %s, the sequence is %s" % (l, ws[l - 1], xs))
             seq = [l] + xs
             for i, x in enumerate(seq):
                 want = seq[i + 1] if i + 1 < len(seq) else 0
@@ -504,6 +503,8 @@ class SL:
                     raise Bad("slist %d: next of %d is %s, the sequence %s says %d" % (l, x, nxt.get(x), xs, want))
             if tail[l] != seq[-1]:
                 raise Bad("slist %d: tail is %s but the last node of %s is %d" % (l, tail[l], xs, seq[-1]))
+            if ws is not None and ws[l - 1] != xs:
+                raise BadFn("a_slist_foreach", "a_slist_foreach on list %d visited %s, the sequence is %s" % (l, ws[l - 1], xs))
 
 
 def parse_s(line):
@@ -1286,6 +1287,9 @@ def report_fail(ctx, cbin, h, idx, msg, c_l, m_l, label, fn=None, abstract=True)
     kind = {"L": "a_list", "S": "a_slist", "Q": "a_que"}[small[0].split()[0]]
     opn = small[min(r[0], len(small) - 1)].split()[0]
     via, note = blame_alias(cbin, small, r, abstract)
+    frames = [f for f in re.findall(r"#\d+ 0x[0-9a-f]+ in (\w+)", err) if f.startswith(("a_", "A_"))]
+    if frames and "no output" in r[1]:
+        note += " [sanitizer stack: %s]" % " < ".join(frames[:5])
     key = "%s/%s" % (kind, r[2] or via or opn)  # an accessor / macro / primitive / alias failure is keyed by its function
     return ctx.report(key=key, what="%s: after '%s': %s%s" % (key, small[min(r[0], len(small) - 1)], r[1], note),
                       replay={"kind": label, "history": small, "failing_op": r[0], "observed": out[-3:],
